@@ -18,13 +18,13 @@ TECHNIQUE = (
 )
 RULE = (
     "content trees over slots {/d/f, '/d/g h', /é/h, /l} with entry kinds {A (hardlink group), B (same inode number, other "
-    "device), C (set-uid, own group), symlink to file/dir/dangling, fifo, empty dir} x for every touched slot every live "
+    "device), C (set-uid, own group), N/P/Q (hand-built files with dev/inode unset: same metadata + same data, same metadata + other data from an in-memory source, other mtime), symlink to file/dir/dangling, fifo, empty dir} x for every touched slot every live "
     "pre-state {absent, file hardlinked to a bystander, file + unrelated '#new' sibling, symlink to file, symlink to dir, "
     "dangling symlink, fifo, directory, directory in which the symlink entry's target resolves to a directory (the overlap merge_contents tolerates)} x parent directory pre-state {absent, directory with odd mode/owner and an "
     "unrelated child, symlink to a directory elsewhere, dangling symlink, regular file} x {parents listed, parents "
     "omitted} x {explicit offset, locations prefixed and offset None, offset directory missing} (x contents order in "
     "thorough). Oracle: after a merge that returns normally every entry that is not itself part of a PMS-forbidden overlap is present with kind, data, target, "
-    "mtime, mode, owner; same-inode sources share an inode; pre-existing directories keep their mode; every path outside "
+    "mtime, mode, owner; entries share an inode exactly when the contents set declares it (equal non-None dev+inode), st_nlink equals the declared group size; pre-existing directories keep their mode; every path outside "
     "the contents set (bystanders, unrelated children, symlink targets, their hardlink groups) is bit-identical; no "
     "'#new' temporary remains. A class is a measured (entry kind over observed live kind -> observed result) transition "
     "or a merge outcome."
@@ -42,13 +42,15 @@ ASSUMPTIONS = [
     "a path below a live symlinked directory counts as inside the contents set at the location the kernel resolves the entry to",
     "Excl: a pre-existing path named '<entry>#new' is the merge protocol's reserved temporary name (C19's statement calls them temporary siblings): what happens to that path itself is not judged, "
     "but the merged entry must still be correct, and a '#new' that did not exist before must not exist afterwards",
+    "a contents set is the only declaration of inode sharing there is: entries with equal non-None dev+inode are one hardlink group, every other regular file must come out as its own inode "
+    "(hardlinking two files that were separate in the source makes a later write to one change the other)",
     "the contents set is built by hand from fs.fsFile/fsSymlink/fsFifo/fsDir objects with recorded mode/uid/gid/mtime/dev/inode; file data comes from a real source image",
 ]
 TIME_CAP = {"thorough": 3600}  # safety net on a shared machine; a capped run is reported as non-exhaustive
 BOUNDS = {
     "quick": "all 1-entry trees (7 kinds + dir, 8 live states); 2-entry trees on slot pairs F-G, F-H, F-L, H-L over kinds {A,B,C,sd,ff,dir} x full product of 8 live states "
-    "(no dangling) per touched slot and 5 parent states; 3-entry trees {same-inode pair + symlink at each contents position} on F-G-L for A and C and F-G-H (middle) x live {absent,file,file+stale,symd,dirx}; x listed/omitted x explicit-offset/prefixed (+ missing offset dir)",
-    "thorough": "all trees with <= 2 entries (7 kinds + dir) x full product of 9 live states x both contents orders; all 3-entry trees over kinds {A,B,C,sd,ff,dir} x live states "
+    "(no dangling) per touched slot and 5 parent states; hand-built no-dev/inode files: 3 single, 6 kind pairs on F-G and F-L, 2 triples on F-G-L x live {absent,file,file+stale,symd,dirx}; 3-entry trees {same-inode pair + symlink at each contents position} on F-G-L for A and C and F-G-H (middle) x live {absent,file,file+stale,symd,dirx}; x listed/omitted x explicit-offset/prefixed (+ missing offset dir)",
+    "thorough": "all trees with <= 2 entries (7 kinds + dir) x full product of 9 live states x both contents orders; no-dev/inode pairs on F-G, F-H, F-L x 9 live states x both orders and triples on F-G-L, F-G-H; all 3-entry trees over kinds {A,B,C,sd,ff,dir} x live states "
     "{absent,file,file+stale,symd,dirx}; x 5 parent states x listed/omitted x explicit-offset/prefixed (+ missing offset dir)",
 }
 
@@ -59,6 +61,12 @@ NONDIR_STATES_3 = [None, "file", "file+stale", "symd", "dirx"]  # dirx behaves a
 TRIPLES_Q = [(("F", "G", "L"), pos, k) for pos in range(3) for k in ("A", "C")] + [(("F", "G", "H"), 1, "A")]
 DIR_STATES = [None, "dir", "lnk", "dang", "file"]
 KINDS_ALL = ["A", "B", "C", "sf", "sd", "sx", "ff"]
+# 'source of entries' dimension: regular files built by hand with dev/inode unset (N, P, Q), alone, paired with each other
+# (identical metadata + same data, identical metadata + other data, other mtime), paired with a declared-inode file, and
+# three at once
+NOINODE_1 = [("F", "N"), ("L", "P"), ("H", "Q")]
+NOINODE_PAIRS = [("N", "N"), ("N", "P"), ("P", "N"), ("N", "Q"), ("A", "N"), ("N", "A")]
+NOINODE_3 = [("N", "P", "N"), ("N", "N", "Q")]
 KINDS_5 = ["A", "B", "C", "sd", "ff"]
 PAIRS_Q = [("F", "G"), ("F", "H"), ("F", "L"), ("H", "L")]
 
@@ -77,6 +85,16 @@ def trees(tier):
     if tier == "quick":
         for slots, pos, k in TRIPLES_Q:
             out.append(({s: ("sd" if i == pos else k) for i, s in enumerate(slots)}, NONDIR_STATES_3, ["asc"]))
+    full = tier == "thorough"
+    st2, orders2 = (NONDIR_STATES, ["asc", "desc"]) if full else (NONDIR_STATES_3, ["asc"])
+    for slot, k in NOINODE_1:
+        out.append(({slot: k}, NONDIR_STATES, ["asc"]))
+    for slots in ([("F", "G"), ("F", "H"), ("F", "L")] if full else [("F", "G"), ("F", "L")]):
+        for ks in NOINODE_PAIRS:
+            out.append((dict(zip(slots, ks)), st2, orders2))
+    for slots in ([("F", "G", "L"), ("F", "G", "H")] if full else [("F", "G", "L")]):
+        for ks in NOINODE_3:
+            out.append((dict(zip(slots, ks)), NONDIR_STATES_3, ["asc"]))
     for n, kinds, states, orders, only in plan:
         for slots in itertools.combinations(ms.NONDIR_SLOTS, n):
             if only is not None and slots not in only:
